@@ -281,6 +281,29 @@ PROPS["C13"] = {
     "nontrivial_op": None,
 }
 
+PROPS["C02"] = {
+    "streams": [{"name": "loop", "chunk_prefixes": ["FLT knew"]}],
+    "profiles": ["release"],
+    "profiles_thorough": ["release"],
+    "model_profiles": ["release"],
+    "rule": "loop: closed loop. A simulated slave clock (initial offset in [-10 s, 10 s], oscillator error within ±150 ppm, programmed "
+            "frequency and steps acting on it) is disciplined by the real KalmanFilter (default configuration) from Sync and Delay "
+            "measurements over a symmetric path (one-way delay 1 … 400 us, uniform jitter of amplitude 0 … 20 us on every leg), Sync interval "
+            "and delay request interval each from 2^-3 … 2^1 s, delay requests at the port's random spacing (uniform in (0, 2) x interval), "
+            "responses arriving after the return leg (so measurements reach the filter out of event-time order), the filter update timer "
+            "firing when due; one scenario in three from the corners of the domain (±10 s, ±1 ms, ±150 ppm, 1 / 400 us, jitter 0 / 1 / 20 us, "
+            "fastest and slowest rates). 60 scenarios per quick run, 1500 per thorough run, each 60 + 350·I + 200 simulated seconds (I = the "
+            "slower of the two intervals). Oracle on the true offset of the simulated clock: it comes below 500 ns + 1.5 x jitter amplitude "
+            "within 60 + 350·I seconds and never exceeds it again, and no step is given after that. Every call is also compared bit for bit "
+            "with the Lean servo model (commands, estimates, complete filter state). distinct = distinct measurement lines",
+    "explanation": "closed-loop simulation oracle on the real filter (sampling) + bit-exact model correspondence; Lean theorems for the structural facts (no step below the threshold, negative feedback)",
+    "assumptions": ["convergence itself is NOT proved: it is a property of floating-point trajectories under random jitter; the verdict on it rests on the sampled closed-loop scenarios (a bounded simulation, named as such)",
+                    "the numeric bound (500 ns + 1.5 x jitter amplitude) and deadline (60 + 350·I s) are calibrations against 4500 scenarios of the unchanged servo with a factor of about two of margin; the property itself only says 'a bound set by the jitter' and 'a bounded time'",
+                    "the port-level part (which timestamps reach the filter, C09; which frames are sent, C10) is composed, not re-simulated: the stream feeds the filter the measurements the port formulas give",
+                    "negative feedback is proved for arithmetics with the IEEE sign rule for products and quotients (SignLaws), a hypothesis about binary64 that is not proved in Lean"],
+    "nontrivial_op": None,
+}
+
 PROPS["C17"] = {
     "streams": [{"name": "inst"}, {"name": "tlv"}, {"name": "timed"}, {"name": "threads", "model": False}],
     "model_is_spec": ["inst", "tlv", "timed"],
@@ -369,7 +392,7 @@ def projection(pid, stream, profile):
         def f3(op, obs):
             return "panic" if "R panic" in obs else "returned"
         return f3
-    if pid == "C13":
+    if pid in ("C13", "C02"):
         def f13(op, obs):
             return "R panic" if obs.startswith("R panic") else obs
         return f13
